@@ -25,6 +25,7 @@ def jobs(tier):
             if tier == "quick" and n >= 3 and inst.startswith("U"):
                 continue    # the unit-slope instance at 3x2x2 did not finish in 600 s; thorough tier only
             J.append(Job("MLR@n=%d,xc=%d,ny=%d,%s" % (n, xc, ny, inst), "C07/mlr_wiring.c", entry="h_MLR", srcs=S, kind="bounded", defines=dict(base, **extra),
+                         advisory=(n >= 3 and inst.startswith("U")),
                          unwind=max(n, (xc + 1) * ny, ny) + 3, functions=["MLR", "MLRPredictY"], timeout=600, cbmc_flags=["--slice-formula"],
                          bound="%d objects, %d predictors, %d responses; data symbolic; coefficient instance %s (I0: all 0; I1: intercept symbolic, responses 0; Uj: unit slope on predictor j)" % (n, xc, ny, inst),
                          clause="MLR wiring (design matrix, one solve per response, coefficient table); prediction = intercept + X*b on an exact instance; residual = prediction - observed"))
